@@ -30,7 +30,7 @@ THEOREMS = {
     'C13_set_compare': 'for two sets satisfying the invariant, idempotent normaliser: <= / >= / == as collections.abc.Set computes them (length test, then scan) hold iff inclusion / equality of membership holds for every key; < and > are inclusion without the converse; isdisjoint(o) iff no key is in both',
     'C13_set_compare_spec': 'same hypotheses: the model\'s <=, ==, <, isdisjoint equal the reference truth values (specLe / specEq / specLt / specDisjoint) the oracle reads',
     'C13_eq_spec': 'Mapping.__eq__ on two mappings satisfying the lock-step invariant (also through the defaulting __getitem__, and against a plain dict with distinct keys) never raises and is true exactly when the reference maps have the same (spelling, value) pairs in any order',
-    'C13_eq_equivalence': '[about the SPEC only] that equality of reference maps is reflexive, symmetric and ignores order',
+    'C13_eq_equivalence': '[about the SPEC only] equality of reference maps is reflexive, symmetric and unchanged by reversing one side (order-independence in general follows from its definition as mutual containment of the item lists; transitivity not stated)',
     'C13_items_lower': 'items_lower() on a mapping satisfying the invariant yields the reference items with lower-cased keys, order and values kept, no KeyError',
     'C13_views_contain': 'on a mapping satisfying the invariant: k in d.keys() is k in d; (k, v) in d.items() iff the reference look-up of k gives v; v in d.values() never raises and holds iff v is among the reference values (plain mappings; the defaulting variant: C13_views_contain_default)',
     'C13_views_contain_default': 'the defaulting variant, mapping satisfying the invariant, any factory value: (k, v) in d.items() iff the DEFAULTING look-up of k gives v (so (absent key, factory value) passes although items() does not iterate it); v in d.values() iff v is among the reference values',
